@@ -213,6 +213,7 @@ class Interp:
         self.lens = {}              # term -> known length
         self.not_none = {}          # term -> bool
         self.distinct = set()       # terms pairwise distinct, not None
+        self.max_recursion = 2      # nested activations of one function
         self.method_raises = {}     # str/bytes method -> [exception names]
         self.call_raises = {}       # builtin name -> [exception names]
         self._reset_path([])
@@ -495,7 +496,8 @@ class Interp:
         for fr in self.frames:
             if fr.func is not None and fr.func.node is node and \
                     len([x for x in self.frames
-                         if x.func is not None and x.func.node is node]) >= 2:
+                         if x.func is not None and x.func.node is node]) >= \
+                    self.max_recursion:
                 return self.opaque_call(f.qualname, f, args, kwargs)
         memo = False
         for d in getattr(f, 'decorators', ()):
